@@ -10,7 +10,7 @@ func init() {
 	register("C17", "exploration", func(run *ev.Run, tier string) string {
 		max := 3
 		if tier == "thorough" {
-			max = 5
+			max = 4
 		}
 		for _, b := range []string{drv.BBolt, drv.Badger} {
 			eng.RangeSweep(run, b, max)
@@ -20,7 +20,7 @@ func init() {
 		eng.RangeAlgebra(run)
 		run.Set("distinct_nontrivial", run.DistinctCount("contents")+run.DistinctCount("range_pairs"))
 		run.Assume("an open end is a nil bound with its inclusivity flag off (as the planner builds it); a nil bound with the flag on is only used in the nil-only range {nil,nil,true,true}; the consumer asks to stop by returning an error, which must come back to the caller")
-		return "index package on the real bbolt and badger stores: every multiset of index entries over 10 values (nil, numbers of mixed Go types, prefix-related strings, bool, array) with <= 2 ids per value and <= N entries (N=3 quick, 5 thorough), surrounded by decoy keys (indexes xy, w, x.y, other collections, documents) and the same over 20 values chosen for their key bytes (floats whose encoding ends in 0xFF/0x00/0x01, +-MaxFloat64, 2^53-1, strings ending in 0x00/0xFF, times at nanosecond 255/256/65535) with <= N-1 entries, x every range (start,end) over the bounds with both inclusivity flags, plus the nil-only range and the full iteration x both directions x every stop position; Intersect/IsEmpty for every pair of ranges over a witness set holding every bound and values between; distinct = distinct index contents + range pairs"
+		return "index package on the real bbolt and badger stores: every multiset of index entries over 10 values (nil, numbers of mixed Go types, prefix-related strings, bool, array) with <= 2 ids per value and <= N entries (N=3 quick, 4 thorough), surrounded by decoy keys (indexes xy, w, x.y, other collections, documents) and the same over 20 values chosen for their key bytes (floats whose encoding ends in 0xFF/0x00/0x01, +-MaxFloat64, 2^53-1, strings ending in 0x00/0xFF, times at nanosecond 255/256/65535) with <= N-1 entries, x every range (start,end) over the bounds with both inclusivity flags, plus the nil-only range and the full iteration x both directions x every stop position; Intersect/IsEmpty for every pair of ranges over a witness set holding every bound and values between; distinct = distinct index contents + range pairs"
 	})
 }
 
